@@ -1,5 +1,6 @@
 """C11 — hop-field authentication and per-AS advance are a correct monotone state machine."""
 import templates as T
+import facts as FX
 import panic as PN
 from facts import tokens, fmt, short, walk
 
@@ -57,6 +58,60 @@ def mac_layout(b):
                 if idx[0] == "lit" and isinstance(idx[1], int) and len(ps) == 1:
                     table[ps[0]] = (idx[1], idx[1] + 1, True)
     return table
+
+
+def _exact_equality(F, o, depth=2):
+    """is the bool origin `o` an exact equality/inequality test of its two operands?"""
+    if o[0] == "bin" and o[1] in ("Eq", "Ne"):
+        return True, "primitive ==/!="
+    if o[0] != "call":
+        return False, "not a comparison: %s" % fmt(o, 60)
+    decl = o[3] if len(o) > 3 else o[1]
+    res = o[1]
+    if decl in ("core::cmp::PartialEq::eq", "core::cmp::PartialEq::ne"):
+        if res.startswith(("core::", "alloc::", "<[")) or res == decl:
+            return True, "core array/slice PartialEq"
+        e = F.fns.get(res)
+        if e is not None and F.has_body(res):
+            sp = F.fn_span(res)
+            if sp is not None and sp.mac and "PartialEq" in sp.mac:
+                return True, "derived PartialEq"
+            return _comparator_fn(F, res, depth)
+        return False, "PartialEq impl %s not analysable" % short(res)
+    if decl.endswith("ConstantTimeEq::ct_eq") or res.endswith("ConstantTimeEq::ct_eq"):
+        return True, "subtle::ConstantTimeEq"
+    if res.endswith(("::from", "::into")) and len(o[2]) == 1:
+        return _exact_equality(F, o[2][0], depth)
+    if F.has_body(res) and depth > 0:
+        return _comparator_fn(F, res, depth)
+    return False, "unknown comparator %s" % short(res)
+
+
+def _comparator_fn(F, fn, depth):
+    """workspace comparator: accepted when it returns a core equality of its parameters, or is an
+    accumulate-and-test loop whose accumulator is only ever OR-ed (`acc |= a ^ b; acc == 0`)"""
+    b = F.body(fn)
+    o = b.local_origin(0)
+    while o[0] == "un" and o[1] == "Not":
+        o = o[2]
+    if o[0] == "call":
+        ok, how = _exact_equality(F, o, depth - 1)
+        if ok:
+            return True, "%s → %s" % (short(fn), how)
+    accs = {}
+    for bi in sorted(b.live_blocks()):
+        for st in b.stmts(bi):
+            if st[0] == "=" and not st[1][1] and st[2][0] == "bin":
+                l = st[1][0]
+                for side in (st[2][2], st[2][3]):
+                    pl = FX.op_place(side)
+                    if pl is not None and pl[0] == l and not pl[1]:
+                        accs.setdefault(l, set()).add(st[2][1])
+    if accs and all(ops <= {"BitOr"} for ops in accs.values()) and o[0] == "bin" and o[1] in ("Eq", "Ne"):
+        return True, "%s: OR-accumulating comparator" % short(fn)
+    if accs:
+        return False, "%s accumulates differences with %s (differences can cancel out)" % (short(fn), sorted(set().union(*accs.values())))
+    return False, "%s is not recognised as an equality" % short(fn)
 
 
 def run(F, R, tier, cfg):
@@ -189,6 +244,17 @@ def run(F, R, tier, cfg):
             return macp(tk, o, g) or "field:ignore_macs" in tk
         ok, info = T.gs_check(b, oks, macp_or_ignore)
         ok2 = bool(T.guard_blocks(b, macp))
+        # the controlling comparison must be an exact equality of all six bytes
+        for g in T.guard_blocks(b, macp):
+            o = b.origin(b.term(g)[1])
+            while o[0] == "un" and o[1] == "Not":
+                o = o[2]
+            exact, how = _exact_equality(F, o)
+            R.ob("CMP-mac", "%s: the MAC comparison is an exact equality (%s)" % (short(p), how), exact, True,
+                 {"rule": "CMP-mac", "fn": p, "loc": b.term_span(g).loc, "comparison": fmt(o, 120), "how": how, "holds": exact})
+            if not exact:
+                R.violation("CMP-mac", p + "/comparator", "the hop MAC is compared with something that is not recognised as an exact equality of all "
+                            "bytes (%s): tampered hop fields can verify" % how, b.term_span(g).loc)
         R.ob("GS-mac", "%s: Ok(()) controlled by mac() == calculate_hop_mac(..)" % short(p), ok and ok2, True)
         if not (ok and ok2):
             R.violation("GS-mac", p, "validator can accept a hop field without comparing its MAC: %s" % info.get("why"), F.loc(p))
